@@ -205,6 +205,57 @@ type genSpec struct {
 	exactQ    int
 	emptyOK   bool
 	polFilter func(absPolicy) bool
+	// plan, if set and ok, fixes policy and quorum kind of case i (otherwise policies rotate and cases alternate
+	// minimal / non-minimal): it guarantees the quick tier a minimal and a non-minimal quorum on an ideal structure
+	// and on a non-ideal one (a signer owning several MSP rows) for the protocol / multiplier / flavour
+	plan func(i int) (a absPolicy, minimal bool, ok bool)
+}
+
+var (
+	polT23   = absPolicy{"T:2:1,2,3", 3}
+	polCNF2  = absPolicy{"N:1|2|3", 3}                 // every holder owns two rows
+	polGate  = absPolicy{"G:g2[1,g1[2,3],g2[1,3]]", 3} // holders 1 and 3 own several rows
+	polT35   = absPolicy{"T:3:1,2,3,4,5", 5}
+	polCNF4  = absPolicy{"N:1,2|3,4", 4}
+	polHier  = absPolicy{"H:1:1,2|2:3,4", 4}
+	polUna   = absPolicy{"U:1,2,3", 3}
+	polT22   = absPolicy{"T:2:1,2", 2}
+	polGate5 = absPolicy{"G:g2[g2[1,2,3],g1[4,5]]", 5}
+)
+
+// dklsPlan: the four quick cases of a DKLs23 multiplier (later cases rotate freely)
+func dklsPlan(i int) (absPolicy, bool, bool) {
+	switch i {
+	case 0:
+		return polT23, true, true // ideal, minimal
+	case 1:
+		return polT23, false, true // ideal, non-minimal: all three of 2-of-3
+	case 2:
+		return polGate, false, true // non-ideal, non-minimal
+	case 3:
+		return polCNF2, true, true // non-ideal, minimal
+	}
+	return absPolicy{}, false, false
+}
+
+// l22Plan: blocks of six consecutive cases contain every flavour once (see the variants list); block b uses cell
+// b mod 4 of {ideal minimal, ideal non-minimal, non-ideal minimal, non-ideal non-minimal}, so that every flavour
+// meets every cell within 24 cases; the concrete policy of a cell rotates
+func l22Plan(i int) (absPolicy, bool, bool) {
+	switch (i / 6) % 4 {
+	case 0:
+		o := []absPolicy{polT23, polHier, polUna, polT35, polT22, polGate5}
+		return o[i%len(o)], true, true
+	case 1:
+		o := []absPolicy{polT23, polT35, polCNF4}
+		return o[i%len(o)], false, true
+	case 2:
+		o := []absPolicy{polCNF2, polGate}
+		return o[i%len(o)], true, true
+	default:
+		o := []absPolicy{polGate, polCNF2}
+		return o[i%len(o)], false, true
+	}
 }
 
 func generate(seed int64, tier string, search bool) []kase {
@@ -221,13 +272,13 @@ func generate(seed int64, tier string, search bool) []kase {
 		// both curves; the first four entries of each list (the quick tier) cover wide and narrow on k256 and p256
 		{proto: "dkls23", variants: []string{"bbot,k256,sha512", "bbot,p256,sha384", "bbot,p256,sha256", "bbot,k256,sha256",
 			"bbot,p256,sha3-512", "bbot,k256,sha3-512", "bbot,k256,sha384", "bbot,p256,sha512", "bbot,k256,sha3-256", "bbot,p256,sha3-384"},
-			count: 4 * mul, maxQ: 2 + boolInt(tier == "thorough"), emptyOK: true},
+			count: 4 * mul, maxQ: 3, emptyOK: true, plan: dklsPlan},
 		{proto: "dkls23", variants: []string{"softspoken,k256,sha3-512", "softspoken,p256,sha512", "softspoken,p256,sha256", "softspoken,k256,sha384",
 			"softspoken,k256,sha256", "softspoken,p256,sha3-384", "softspoken,k256,sha512", "softspoken,p256,sha3-512", "softspoken,k256,sha3-256", "softspoken,p256,sha384"},
-			count: 4 * mul, maxQ: 3, emptyOK: true},
+			count: 4 * mul, maxQ: 3, emptyOK: true, plan: dklsPlan},
 		{proto: "lindell22", variants: []string{"bip340,-", "mina,-", "schnorr-k256,sha512", "schnorr-k256-neg,sha256", "schnorr-p256,sha3-512", "schnorr-k256-le,sha384",
 			"bip340,-", "mina,-", "schnorr-p256,sha256", "schnorr-k256,sha256", "schnorr-k256-neg,sha3-512", "schnorr-k256-le,sha256"},
-			count: 24 * mul, maxQ: 4, emptyOK: true},
+			count: 24 * mul, maxQ: 4, emptyOK: true, plan: l22Plan},
 		{proto: "boldyreva", variants: []string{"short,basic", "short,aug", "short,pop", "long,basic", "long,aug", "long,pop"}, count: 18 * (mul - 1), maxQ: 5, emptyOK: true}, // quick tier: the cross product of boldyrevaCross only
 	}
 	out := lindell17Cases(seed, lindell17Count(tier)*boolMul(search, 2))
@@ -248,6 +299,12 @@ func generate(seed int64, tier string, search bool) []kase {
 			asg := (i / len(pols)) % len(assignments)
 			var p keys.Policy
 			var q []sharing.ID
+			if sp.plan != nil {
+				if a, minimal, ok := sp.plan(i); ok {
+					p = concretePolicy(a, (i/4)%len(assignments))
+					q = pickQuorum(p, rng, minimal, sp.maxQ, sp.exactQ)
+				}
+			}
 			for off := 0; off < len(pols) && q == nil; off++ { // a policy without a quorum of the allowed size: take the next one
 				p = concretePolicy(pols[(i+off)%len(pols)], asg)
 				q = pickQuorum(p, rng, i%2 == 0, sp.maxQ, sp.exactQ)
@@ -378,7 +435,7 @@ func main() {
 	res.Rule = "full protocol runs of the real implementation (round functions driven through harness/internal/drive, every message through CBOR): " +
 		"protocol x variant (DKLs23 bbot/softspoken x k256/p256 x hash; Lindell22 x bip340/mina/vanilla(+neg,+le,p256); Boldyreva x short/long x basic/aug/pop; Lindell17; CGGMP21) x " +
 		"policy family (threshold, unanimity, CNF incl. non-ideal, hierarchical, gate trees with repeated leaves) x ID assignment (ordinal, sparse unsorted, >= 2^40) x " +
-		"quorum (minimal / non-minimal, presented unsorted) x message (empty, 1 byte, 10 kB, short random) x session contexts (seeded / real setup protocol) x key source (trusted dealer / real Gennaro DKG / real Canetti DKG) x API (round-by-round / networked runner over an in-memory transport) x seed; " +
+		"quorum (minimal AND non-minimal for every protocol/multiplier/flavour on an ideal and on a non-ideal structure with a multi-row signer; Lindell17 has exactly two signers; presented unsorted) x Boldyreva as full cross product {short,long}x{basic,aug,pop}x{ideal, CNF two rows per holder, gate tree repeated leaf}x{minimal,non-minimal} x message (empty, 1 byte, 10 kB, short random) x session contexts (seeded / real setup protocol) x key source (trusted dealer / real Gennaro DKG / real Canetti DKG) x API (round-by-round / networked runner over an in-memory transport) x seed; " +
 		"non-trivial = the run got past construction of all cosigners"
 
 	var cases []kase
